@@ -266,7 +266,7 @@ consume_data(j_decompress_ptr cinfo)
 {
   my_diff_ptr diff = (my_diff_ptr)cinfo->coef;
   int ci, compi;
-  _JSAMPARRAY buffer[MAX_COMPS_IN_SCAN];
+  _JSAMPARRAY buffer[MAX_COMPONENTS];
   jpeg_component_info *compptr;
 
   /* Align the virtual buffers for the components used in this scan. */
